@@ -13,7 +13,8 @@ RULE = ("kinds: direct (random screen of single-sample plates built with the rea
         "selection history from the empty batch calling KPerSamplePlatePolicy.filter_eligible_plates directly, batch kept in "
         "selection order; eligible id list compared with the model at every state); select (same, through the real "
         "select_next_plate with a recording subclass of the policy and a ChunkedScoresHolder whose scores make the chosen "
-        "eligible plate win while non-eligible plates may score lower; some plates already observed); state (arbitrary, "
+        "eligible plate win while non-eligible plates may score lower; some plates already observed; a third of them again with "
+        "NaN / +inf / 1.7e308 scores on every allowed plate, implementation-side predicate only); state (arbitrary, "
         "mostly unreachable (batch, remaining) splits in shuffled order incl. several incomplete samples, over-full samples "
         "and multi-sample plates).  Non-trivial: at least one plate; distinct by canonical case description.")
 THEOREMS = {
@@ -168,6 +169,8 @@ def gen(rng, tier):
         else:
             observed = [rng.random() < 0.2 for _ in pl]
             yield dict(kind="select", k=k, plates=pl, observed=observed, choices=choices[:stop], sseed=rng.randrange(1 << 30))
+            if len(pl) % 3 == 0:
+                yield dict(kind="select", k=k, plates=pl, observed=observed, choices=choices[:stop], sseed=rng.randrange(1 << 30), extreme=True)
     for _ in range(300 if tier == "quick" else 4000):
         k = rng.choice([1, 2, 2, 3, 3, 4])
         pl = _plates(rng)
@@ -332,6 +335,12 @@ def run(desc):
             for i in scored:  # ineligible plates may look better than every eligible one
                 if i not in el and srng.random() < 0.4:
                     sc[i] = sc[target] - srng.randint(0, 5)
+        if desc.get("extreme"):
+            # every allowed plate scores NaN / +inf (a scorer that overflowed), the others stay finite: whatever is returned
+            # must still be an allowed plate
+            for i in el:
+                sc[i] = srng.choice([float("nan"), float("inf"), float("nan"), 1.7e308])
+            target = None
         holder = ChunkedScoresHolder(size=len(scored))
         for i in scored:
             holder.add_score(i, float(sc[i]))
@@ -364,6 +373,8 @@ def run(desc):
     if any(observed):
         feats.append("observed-present")
     wire_screen = [[wire_plate(p), bool(p.is_observed)] for p in plates]
+    if desc.get("extreme"):      # NaN / inf scores are outside the model's integer scores: implementation-side predicate only
+        return dict(wire=None, impl=None, pred=pred, features=feats + ["allowed-plates-score-nan-or-inf"])
     return dict(wire=[2, k, wire_screen, [], tables], impl=out, pred=pred, features=feats, cmp=cmp_result())
 
 
